@@ -2,7 +2,7 @@
 import json, os, sys
 sys.path.insert(0, os.path.dirname(os.path.dirname(os.path.abspath(__file__))))
 ALL = ["C%02d" % i for i in range(1, 21)]
-TECH = "deterministic simulation with fault injection: real library + real concurrent.futures code on simulated threading primitives, baton-passing real threads under a seeded scheduler (uniform / sticky / PCT / bounded pre-emption, line-level pre-emption via sys.monitoring), virtual clock, scripted delegate and user-code faults, history oracles, replay files"
+TECH = "deterministic simulation with fault injection: real library + real concurrent.futures code on simulated threading primitives, baton-passing real threads under a seeded scheduler (uniform / sticky / PCT / bounded pre-emption / race-directed / site-directed / placement strategies; pre-emption at synchronisation operations, line starts and loop back-edges via sys.monitoring), virtual clock with late timer wake-ups and thread stalls, scripted delegate and user-code faults, history oracles, replay files"
 CHECKS = {
  "C01": {
   "text": "Seeded search over stacks (depth 1-6, all layer types and orders) x outcome scripts x submitter threads x schedules; every non-cancelled future is compared with a sequential reference evaluation (value equality, exception identity, invocation count, argument integrity). Evidence of absence over the explored runs, not proof.",
